@@ -8,7 +8,9 @@ EXPLANATION = ("In gix-worktree-state's library code: every OpenOptions::open re
                "fs::copy / fs::rename; symlinks are created only through gix_fs::symlink::create; removals happen only in try_unlink_path_recursively; the per-entry "
                "effects are the enumerated allow-list. In gix-worktree's StackDelegate::push validation precedes create_leading_directory (shared with C40) and "
                "create_leading_directory re-checks symlink_metadata before reusing an existing entry and only removes a colliding entry when asked to. "
-               "Content and mode equality with `git checkout` are not decided.")
+               "Directory entry: every Delegate::push_directory site of gix_fs::Stack that is not reached through the Ok edge of a Delegate::push (other than the root) "
+               "obliges StackDelegate::push_directory to run create_leading_directory(false, ..) in checkout mode, bypassable only by the flag push() sets to "
+               "!is_last_component or by the empty (root) path. Content and mode equality with `git checkout` are not decided.")
 FORBIDDEN = r"(^std::fs::File::(create|create_new|options)$|^std::fs::(write|copy|rename|hard_link|create_dir|create_dir_all|soft_link)$|^std::fs::OpenOptions::new$|unix::fs::symlink$)"
 ALLOW = {  # callee -> allowed caller regex
     r"^std::fs::OpenOptions::open$": r"checkout::entry::(checkout|open_file)",
@@ -21,6 +23,7 @@ ALLOW = {  # callee -> allowed caller regex
 
 
 def run(db, chk):
+    directory_entry_rule(db, chk)
     fns = [f for f in db.by_crate["gix_worktree_state"] if f.kind != "promoted"]
     chk.floor("gix_worktree_state functions", len(fns), 60)
     forb_alive = sum(1 for c_ in ("gix_fs", "gix_odb", "gix_ref") for f in db.by_crate[c_] for c in f.calls() if c.is_(FORBIDDEN))
@@ -69,3 +72,80 @@ def run(db, chk):
     unlink_sw = [bi for bi in cl.reachable_blocks() if cl.term(bi)[0] == "switch" and "p" in cl.term(bi)[1] and cfl.roots(cl.term(bi)[1], stop_named=False) == {("arg", 5, ())}]
     ok = bool(rm) and bool(unlink_sw) and all(any(cl.dominates(s, r.block) for s in unlink_sw) for r in rm)
     chk.ob("collision-removal-only-on-request", "create_leading_directory", ok, "removing a colliding entry must be guarded by unlink_on_collision", "%s:%d" % (cl.file, cl.line), key="collision-removal-only-on-request")
+
+
+def directory_entry_rule(db, chk):
+    """Nothing is placed beneath a path component that the checkout delegate did not verify to be a real directory.
+    gix_fs::Stack announces `entering a directory` with Delegate::push_directory.  A call site of it that is not reached through the Ok edge of a
+    Delegate::push in the same traversal step (the root, and a former leaf - e.g. a symlink - that a following path uses as directory) hands the
+    delegate a component it never saw as directory.  If such non-root sites exist, StackDelegate::push_directory itself must run
+    create_leading_directory(false, ..) in checkout mode; the only bypasses allowed are the root (empty relative path) and a flag that
+    StackDelegate::push sets to `!is_last_component`."""
+    from gx.flow import Flow, comparisons
+    mk = db.one(r"^gix_fs::stack::<impl gix_fs::Stack>::make_relative_path_current$")
+    mfl = Flow(mk)
+    pds = mk.calls_to(r"Delegate::push_directory")
+    pushes = [c for c in mk.calls_to(r"Delegate::push\??(dyn)?$") if "push_directory" not in c.name]
+    chk.floor("gix_fs::Stack: Delegate::push_directory call sites", len(pds), 2)
+    chk.floor("gix_fs::Stack: Delegate::push call sites", len(pushes), 1)
+    good = set()
+    for c in pushes:
+        good |= mfl.result_edges(c)["good"]
+    unverified = []
+    for c in pds:
+        if good and mfl.cut_off([c.block], good):
+            continue
+        # the root site: guarded by `valid_components == 0`
+        rootish = any(cm["op"] == "Eq" and (cm["a"].get("v") == 0 or cm["b"].get("v") == 0) and mk.dominates(cm["block"], c.block)
+                      and any(r[0] == "arg" and ".valid_components" in r[2] for side in ("a", "b") if "p" in cm[side] for r in mfl.roots(cm[side], stop_named=False))
+                      and len(mk.blocks) and mk.idom().get(c.block) == cm["block"] for cm in comparisons(mk))
+        if not rootish:
+            unverified.append(c)
+    chk.set("push_directory_sites_not_preceded_by_push", len(unverified))
+    sd = db.one(r"^<gix_worktree::stack::delegate::StackDelegate<'_, '_> as gix_fs::stack::Delegate>::push_directory$")
+    sp = db.one(r"^<gix_worktree::stack::delegate::StackDelegate<'_, '_> as gix_fs::stack::Delegate>::push$")
+    if not unverified:
+        chk.ob("directory-entered-only-after-verification", "gix_fs::Stack announces directories only after push()", True)
+        return
+    sfl = Flow(sd)
+    cld = [c for c in sd.calls_to(r"delegate::create_leading_directory$") if "p" not in c.args[0] and c.args[0].get("v") == 0]
+    # flag fields set in push() from !is_last_component
+    flags = set()
+    for bi, si, pl, rv, ln, mc in sp.assigns():
+        if rv[0] == "un" and rv[1] == "Not" and "p" in rv[2] and any(r[0] == "arg" and r[1] == 2 for r in Flow(sp).roots(rv[2], stop_named=False)):
+            flags |= {x for x in pl[1:] if isinstance(x, str) and x.startswith(".")}
+            # through a temporary
+            for bi2, si2, pl2, rv2, ln2, mc2 in sp.assigns():
+                if rv2[0] == "use" and "p" in rv2[1] and rv2[1]["p"] == pl and pl2[0] == 1:
+                    flags |= {x for x in pl2[1:] if isinstance(x, str) and x.startswith(".")}
+    ok = False
+    why = "StackDelegate::push_directory never runs create_leading_directory(false, ..)"
+    if cld:
+        why = "create_leading_directory(false, ..) can be bypassed in checkout mode by an edge that is neither `already verified by push()` nor `root`"
+        # entry into checkout mode: the edge(s) of a switch on the state's discriminant leading to the CreateDirectoryAndAttributesStack variant
+        starts = []
+        for bi in sd.reachable_blocks():
+            sv = sd.switch_variants(bi)
+            if sv and any("CreateDirectoryAndAttributesStack" in names for names in sv["edges"].values()):
+                starts += [tgt for tgt, names in sv["edges"].items() if names == ["CreateDirectoryAndAttributesStack"]]
+        allowed = set()
+        for c in cld:
+            allowed |= sfl.result_edges(c)["good"]
+        for bi in sd.reachable_blocks():
+            t = sd.term(bi)
+            if t[0] != "switch" or "p" not in t[1]:
+                continue
+            rs = sfl.roots(t[1], stop_named=False)
+            nonzero = {(bi, x) for v, x in t[2] if v != 0} | ({(bi, t[3])} if all(v == 0 for v, x in t[2]) else set())
+            if any(r[0] == "arg" and r[1] == 1 and (set(r[2]) & flags) for r in rs):
+                allowed |= nonzero            # flag set by push(): this component was verified as directory
+            if any(r[0] == "call" and r[1].endswith("::is_empty") for r in rs):
+                allowed |= nonzero            # the root itself (empty relative path)
+        sinks = [c.block for c in sd.calls() if c.is_(r"push_directory$") and c.block not in [x.block for x in cld]]
+        first = [b_ for b_ in starts if any(sd.dominates(b_, c.block) for c in cld)]
+        ok = bool(first) and bool(sinks) and bool(flags) and all(sfl.cut_off(sinks, allowed, start=b_) for b_ in first)
+        if ok:
+            why = "ok"
+    chk.ob("directory-entered-only-after-verification", "StackDelegate::push_directory (gix_fs::Stack has %d site(s) that enter a directory the delegate never saw as one)" % len(unverified),
+           ok, "%s: a symlink checked out as `a` followed by an entry `a/b` makes the checkout place `b` behind the symlink, outside of the worktree" % why,
+           "%s:%d" % (sd.file, sd.line), key="dir-entry-verified|StackDelegate::push_directory")
